@@ -126,6 +126,27 @@ def _doc_case(ctx, idx):
         from pydicom.sr.codedict import codes
         root = hd.sr.TextContentItem(name=codes.DCM.Finding, value='not a container')
         spec = {'id': 1, 'vt': 'TEXT', 'name': ('121071', 'DCM'), 'rel': None, 'ref': None, 'has_seq': False, 'children': []}
+    malformed = None
+    if root_kind == 'container' and r.random() < 0.08:
+        # a raw data set below the root that is no content item: relationship type removed / value type outside the enumeration
+        # (at any depth, also below non-container items)
+        pairs_ = []
+
+        def collect(item, sp):
+            for ch, cs in zip(item.ContentSequence if sp['has_seq'] else [], sp['children']):
+                pairs_.append((ch, cs))
+                collect(ch, cs)
+        collect(root, spec)
+        if pairs_:
+            ch, cs = r.choice(pairs_)
+            if r.random() < 0.5:
+                del ch.RelationshipType
+                cs['rel'] = None
+                malformed = 'descendant-without-relationship'
+            else:
+                ch.ValueType = 'BOGUS'
+                cs['vt'] = 'BOGUS'
+                malformed = 'unknown-value-type'
     refs = srdocs.referenced(spec)
     evidence, mode = srdocs.evidence_list(r, pool, refs)
     if r.random() < 0.03:
@@ -147,7 +168,8 @@ def _doc_case(ctx, idx):
                                                 '1.2.840.10008.5.1.4.1.1.88.33', modality='SR', image=False))
     as_seq = r.choice([0] * 14 + [1] * 5 + [2])   # 0 data set, 1 sequence of one, 2 sequence of two
     return {'idx': idx, 'pool': pool, 'cls': cls, 'root': root, 'spec': spec, 'refs': refs, 'evidence': evidence,
-            'mode': mode, 'flags': flags, 'prev': prev, 'as_seq': as_seq, 'depth': depth, 'root_kind': root_kind}
+            'mode': mode, 'flags': flags, 'prev': prev, 'as_seq': as_seq, 'depth': depth, 'root_kind': root_kind,
+            'malformed': malformed}
 
 
 def _placement_cases(ctx):
@@ -240,6 +262,8 @@ def _expected(c):
         reasons.append('two-roots')
     if c['root_kind'] != 'container':
         reasons.append('root-' + c['root_kind'])
+    if c.get('malformed'):
+        reasons.append(c['malformed'])
     first = {}
     for e in c['evidence']:
         first.setdefault(str(e.SOPInstanceUID), (str(e.StudyInstanceUID), str(e.SeriesInstanceUID),
@@ -378,7 +402,8 @@ def _check_doc(ctx, c, reqs, pending):
         pending.append((case, ('err', res[1]), 'doc'))
         return
     doc = res[1]
-    pending.append((case, _impl_doc(doc), 'doc'))
+    impl_doc = _impl_doc(doc)
+    pending.append((case, impl_doc, 'doc'))
     # ---- oracle: content unchanged
     if canon(c['root']) != before:
         ctx.fail(case, 'the content tree handed in was modified by the constructor', site='sr.ctor/input-mutated')
@@ -391,8 +416,40 @@ def _check_doc(ctx, c, reqs, pending):
             root_ds[kw] = doc[kw]
     if canon(root_ds) != before:
         ctx.fail(case, 'root content attributes of the document data set differ from the tree it was given', site='sr.dataset')
+    # the document owns its tree: no item of its data set is an item of the caller's tree, the data set's items ARE the
+    # items of .content, and editing the caller's tree afterwards changes neither
+    def items_below(ds_):
+        out_ = []
+        for x in ds_.get('ContentSequence', []):
+            out_.append(x)
+            out_ += items_below(x)
+        return out_
+    given_items = {id(x) for x in items_below(c['root'])}
+    doc_items = items_below(doc)
+    if any(id(x) in given_items for x in doc_items):
+        ctx.fail(case, "the document's data set holds (aliases) content items of the tree it was given", site='sr.ctor/aliasing')
+    if [id(x) for x in doc_items] != [id(x) for x in items_below(doc.content[0])]:
+        ctx.fail(case, "the items of the document's data set are not the items of .content (two diverging trees)", site='sr.ctor/aliasing')
+    victims = items_below(c['root'])
+    if victims:
+        v = victims[ctx.rng('alias', c['idx']).randrange(len(victims))]
+        v.ObservationUID = '1.2.826.0.1.3680043.8.498.666'      # edit the caller's tree after construction
+        if canon(root_ds) != before or canon(doc.content[0]) != before:
+            ctx.fail(case, "editing the caller's tree after construction changed the document", site='sr.ctor/aliasing')
+        bio_a = io.BytesIO()
+        doc.save_as(bio_a)
+        import pydicom as _pd
+        wa = _pd.dcmread(io.BytesIO(bio_a.getvalue()))
+        ra = _pd.Dataset()
+        for kw in ('ValueType', 'ConceptNameCodeSequence', 'ContinuityOfContent', 'ContentTemplateSequence', 'ContentSequence',
+                   'ObservationDateTime', 'ObservationUID'):
+            if kw in wa:
+                ra[kw] = wa[kw]
+        if canon(ra) != before:
+            ctx.fail(case, "editing the caller's tree after construction changed the written file", site='sr.ctor/aliasing')
     ids = {}
     probs = _walk_real(doc.content[0], spec, ids)
+    impl_doc[1]['content_ids'] = list(ids.values())       # document order of .content, compared with the model's subtree
     if probs:
         ctx.fail(case, {'what': '.content does not have the constructed structure', 'problems': probs[:5]}, site='sr.content')
     # ---- oracle: evidence partition on the data set (L1 observables, read through pydicom only)
@@ -622,6 +679,11 @@ def _check_ko(ctx, c, reqs, pending):
         ctx.fail(case, 'key object document lists other evidence', site='ko/evidence')
     if canon(doc.content[0]) != canon(content[0]):
         ctx.fail(case, 'key object document .content differs from the content given', site='ko.content')
+    given_ids = {id(x) for x in content[0].ContentSequence}
+    if any(id(x) in given_ids for x in doc.ContentSequence):
+        ctx.fail(case, "the key object document's data set holds (aliases) content items of the content it was given", site='ko.ctor/aliasing')
+    if [id(x) for x in doc.ContentSequence] != [id(x) for x in doc.content[0].ContentSequence]:
+        ctx.fail(case, "the items of the key object document's data set are not the items of .content", site='ko.ctor/aliasing')
     got_refs = [(str(i.ReferencedSOPSequence[0].ReferencedSOPClassUID), str(i.ReferencedSOPSequence[0].ReferencedSOPInstanceUID))
                 for i in doc.content.get_references()]
     if got_refs != [tuple(x) for x in c['refs']]:
@@ -676,37 +738,51 @@ SEG_CLS = '1.2.840.10008.5.1.4.1.1.66.4'
 
 
 def _seg_case(ctx, idx):
-    """A segmentation-like data set (exactly the attributes the builders read) + the frame table it was built from."""
+    """A segmentation-like data set (exactly the attributes the builders read) + the frame table it was built from.
+    A table row: {'segment': n, 'drv': None | [d, ...]} with d = None (derivation item without SourceImageSequence) or a
+    list of source images (cls, inst, frame numbers | None = the whole instance)."""
     from gen import srdocs
     from pydicom.dataset import Dataset
     from pydicom.sequence import Sequence
     r = ctx.rng('seg', idx)
     base = srdocs.uid(r, 'seg')
     n_seg = r.randint(1, 3)
-    layout = r.choice(['single-frame-sources', 'multiframe-source', 'tiled', 'no-derivation', 'mixed', 'two-sources'])
+    layout = r.choice(['single-frame-sources', 'multiframe-source', 'tiled', 'no-derivation', 'mixed', 'two-sources',
+                       'whole-and-frames', 'two-derivations', 'derivation-without-source'])
     tiled = layout == 'tiled'
     n_src = r.randint(1, 4)
     src_cls = '1.2.840.10008.5.1.4.1.1.2' if layout != 'tiled' else '1.2.840.10008.5.1.4.1.1.77.1.6'
-    frames = []   # the table: one row per frame: segment, sources [(cls, inst, frames|None)] or None
+
+    def mf():
+        return [r.randint(1, 30)] if r.random() < 0.8 else sorted(r.sample(range(1, 30), 2))
+    frames = []
     for s in range(1, n_seg + 1):
         if r.random() < 0.15 and n_seg > 1:
             continue                                        # a described segment without frames
         nf = r.randint(1, 4) if (tiled or layout != 'two-sources') else r.randint(1, 2)
         for k in range(nf):
             if layout == 'single-frame-sources':
-                src = [(src_cls, f'{base}.7.{r.randint(1, n_src)}', None)]
+                drv = [[(src_cls, f'{base}.7.{r.randint(1, n_src)}', None)]]
             elif layout in ('multiframe-source', 'tiled'):
                 # frame numbers of the SOURCE deliberately differ from the segmentation's own frame numbers
-                src = [(src_cls, f'{base}.7.1', [r.randint(1, 30)] if r.random() < 0.8 else sorted(r.sample(range(1, 30), 2)))]
+                drv = [[(src_cls, f'{base}.7.1', mf())]]
             elif layout == 'no-derivation':
-                src = None
+                drv = None
             elif layout == 'mixed':
-                src = None if r.random() < 0.4 else [(src_cls, f'{base}.7.{r.randint(1, n_src)}', None)]
+                drv = None if r.random() < 0.4 else [[(src_cls, f'{base}.7.{r.randint(1, n_src)}', None)]]
+            elif layout == 'two-sources':
+                drv = [[(src_cls, f'{base}.7.1', None), (src_cls, f'{base}.7.2', None)]]
+            elif layout == 'whole-and-frames':
+                # one multi-frame source: some frames derive from listed frames of it, some from the instance as a whole
+                drv = [[(src_cls, f'{base}.7.{r.randint(1, 2)}', None if r.random() < 0.35 else mf())]]
+            elif layout == 'two-derivations':
+                drv = [[(src_cls, f'{base}.7.1', mf())], [(src_cls, f'{base}.7.{r.randint(1, 2)}', mf())]] if r.random() < 0.6 \
+                    else [[(src_cls, f'{base}.7.1', mf())]]
             else:
-                src = [(src_cls, f'{base}.7.1', None), (src_cls, f'{base}.7.2', None)]
-            frames.append({'segment': s, 'src': src})
+                drv = [None] if r.random() < 0.5 else [[(src_cls, f'{base}.7.1', mf())]]
+            frames.append({'segment': s, 'drv': drv})
     if not frames:
-        frames.append({'segment': 1, 'src': None})
+        frames.append({'segment': 1, 'drv': None})
     if r.random() < 0.5:
         r.shuffle(frames)                                   # frames of a segment need not be contiguous
     ds = Dataset()
@@ -722,18 +798,22 @@ def _seg_case(ctx, idx):
         si = Dataset()
         si.ReferencedSegmentNumber = fr['segment']
         it.SegmentIdentificationSequence = Sequence([si])
-        if fr['src'] is not None:
-            drv = Dataset()
-            srcs = []
-            for cls, inst, fn in fr['src']:
-                s_ = Dataset()
-                s_.ReferencedSOPClassUID = cls
-                s_.ReferencedSOPInstanceUID = inst
-                if fn is not None:
-                    s_.ReferencedFrameNumber = fn if len(fn) > 1 else fn[0]
-                srcs.append(s_)
-            drv.SourceImageSequence = Sequence(srcs)
-            it.DerivationImageSequence = Sequence([drv])
+        if fr['drv'] is not None:
+            ditems = []
+            for d in fr['drv']:
+                drv = Dataset()
+                if d is not None:
+                    srcs = []
+                    for cls, inst, fn in d:
+                        s_ = Dataset()
+                        s_.ReferencedSOPClassUID = cls
+                        s_.ReferencedSOPInstanceUID = inst
+                        if fn is not None:
+                            s_.ReferencedFrameNumber = fn if len(fn) > 1 else fn[0]
+                        srcs.append(s_)
+                    drv.SourceImageSequence = Sequence(srcs)
+                ditems.append(drv)
+            it.DerivationImageSequence = Sequence(ditems)
         pf.append(it)
     ds.PerFrameFunctionalGroupsSequence = Sequence(pf)
     refser = r.choice(['instances', 'instances', 'one-instance', 'series-only', 'absent'])
@@ -755,10 +835,31 @@ def _seg_case(ctx, idx):
             'ref_instances': ref_instances, 'series': f'{base}.7', 'n_seg': n_seg, 'is_seg': ds.SOPClassUID == SEG_CLS}
 
 
+def _sources_of(row):
+    """all source images of a table row (every derivation item, every source image)"""
+    return [x for d in (row['drv'] or []) for x in (d or [])]
+
+
+def derived_from(frames, named):
+    """THE STATEMENT, over the frame table only: instance -> (class, 'whole' | set of frame numbers) the named segmentation
+    frames were derived from; instances in order of first mention."""
+    out = {}
+    for f in named:
+        for cls, inst, fn in _sources_of(frames[f - 1]):
+            if inst not in out:
+                out[inst] = [cls, set() if fn is not None else 'whole']
+            if fn is None:
+                out[inst][1] = 'whole'
+            elif out[inst][1] != 'whole':
+                out[inst][1] |= set(fn)
+    return out
+
+
 def _seg_model(c):
     return {'is_seg': c['is_seg'], 'cls': str(c['ds'].SOPClassUID), 'inst': str(c['ds'].SOPInstanceUID), 'tiled': c['tiled'],
             'frames': [{'segment': f['segment'],
-                        'src': None if f['src'] is None else [{'cls': a, 'inst': b, 'frames': fn} for a, b, fn in f['src']]}
+                        'drv': None if f['drv'] is None else [None if d is None else [{'cls': a, 'inst': b, 'frames': fn} for a, b, fn in d]
+                                                              for d in f['drv']]}
                        for f in c['frames']],
             'refser': c['refser'],
             'ref_instances': None if c['ref_instances'] is None else [list(x) for x in c['ref_instances']],
@@ -804,6 +905,8 @@ def _check_seg(ctx, c, reqs, pending):
             u = r.random()
             if u < 0.55 and own:
                 fnums = r.sample(own, r.randint(1, len(own)))
+                if c['layout'] in ('whole-and-frames', 'two-derivations') and r.random() < 0.6:
+                    fnums = list(own)          # all frames of the segment: mentions of one instance with and without frame numbers meet
             elif u < 0.8:
                 fnums = r.sample(range(1, n + 1), r.randint(1, min(n, 3)))       # possibly other segments' frames
             elif u < 0.9:
@@ -864,37 +967,27 @@ def _check_seg(ctx, c, reqs, pending):
                          site=site + '/frames')
         if obs['frames'] is not None and any(frames[f - 1]['segment'] != the_seg for f in obs['frames'] if 1 <= f <= n):
             ctx.fail(case, 'a named segmentation frame does not belong to the referenced segment', site=site + '/frames')
-        # sources: the instances (and their frames) the named frames were derived from
-        derived = []
-        for f in named:
-            for cls, inst, fn in (frames[f - 1]['src'] or []):
-                derived.append((cls, inst, fn))
-        if derived:
+        # sources: the instances and the frames of them that the named segmentation frames were derived from
+        want_map = derived_from(frames, named)
+        if want_map:
+            got_map = {}
+            for cls, inst, fn in obs['sources']:
+                if inst in got_map:
+                    ctx.fail(case, {'what': 'a source instance is named twice', 'got': obs['sources']}, site=site + '/sources')
+                got_map[inst] = [cls, 'whole' if fn is None else set(fn)]
             if builder == 'segment':
-                want = []
-                for cls, inst, fn in derived:
-                    if inst not in [w[1] for w in want]:
-                        want.append([cls, inst, fn])
-                if obs['sources'] != want:
-                    ctx.fail(case, {'what': 'source images are not the instances (with their frames) the named frames derive from',
-                                    'got': obs['sources'], 'want': want}, site=site + '/sources')
+                if list(got_map) != list(want_map) or got_map != want_map:
+                    ctx.fail(case, {'what': 'source images are not the instances, each with the frames of it, that the named frames derive from '
+                                            '(no frame numbers = derived from the instance as a whole)',
+                                    'got': obs['sources'], 'want': {k: [v[0], v[1] if v[1] == 'whole' else sorted(v[1])] for k, v in want_map.items()},
+                                    'segmentation_frames_named': list(named)}, site=site + '/sources')
             else:
-                insts = {(cls, inst) for cls, inst, _ in derived}
-                if len(obs['sources']) != 1 or (obs['sources'][0][0], obs['sources'][0][1]) not in insts:
-                    ctx.fail(case, {'what': 'source image is not an instance the named frames derive from', 'got': obs['sources'],
-                                    'want': sorted(insts)}, site=site + '/sources')
-                else:
-                    cls, inst, got_fn = obs['sources'][0]
-                    src_frames = []
-                    for f in named:
-                        for a, b, fn in (frames[f - 1]['src'] or []):
-                            if b == inst:
-                                for x in (fn or []):
-                                    if x not in src_frames:
-                                        src_frames.append(x)
-                    if sorted(got_fn or []) != sorted(src_frames):
-                        ctx.fail(case, {'what': 'source frame numbers are not the source frames the named segmentation frames derive from',
-                                        'got': got_fn, 'want': src_frames, 'segmentation_frames_named': named}, site=site + '/source-frames')
+                # one reference names one source image: the named frames must all derive from that one instance (refusal of
+                # anything else is the builder's documented right and was handled above)
+                if len(want_map) != 1 or got_map != want_map:
+                    ctx.fail(case, {'what': 'source image / source frame numbers are not the ones the named segmentation frames derive from',
+                                    'got': obs['sources'], 'want': {k: [v[0], v[1] if v[1] == 'whole' else sorted(v[1])] for k, v in want_map.items()},
+                                    'segmentation_frames_named': list(named)}, site=site + '/source-frames')
         else:
             # fall back to the referenced series: instances listed there, or the series itself
             if c['ref_instances'] is not None:
@@ -918,6 +1011,10 @@ def _compare(ctx, pending, answers):
         model = ('ok', ans['ok']) if 'ok' in ans else ('err', ans['err'])
         if impl[0] != model[0]:
             ctx.disagree('L0', case, impl, model, f'{kind}: ok-vs-error')
+        elif impl[0] == 'err' and impl[1] is not None and impl[1] != model[1]:
+            # which exception class a refusal raises (recorded only: several reasons may hold at once and the property speaks of
+            # refusal, not of its class)
+            ctx.disagree('L2', dict(case, layer='L2') if isinstance(case, dict) else case, impl, model, f'{kind}: error kind')
         elif impl[0] == 'ok' and impl[1] is not None:
             a, b = impl[1], model[1]
             if kind == 'root':
@@ -998,7 +1095,11 @@ def _real_segmentations(ctx):
             if 'ReferencedFrameNumber' in s:
                 v = s.ReferencedFrameNumber
                 fn = [int(x) for x in v] if s['ReferencedFrameNumber'].VM > 1 else [int(v)]
-            table.append((str(s.ReferencedSOPInstanceUID), fn))
+            table.append({'segment': int(it.SegmentIdentificationSequence[0].ReferencedSegmentNumber),
+                          'drv': [[(str(s.ReferencedSOPClassUID), str(s.ReferencedSOPInstanceUID), fn)]]})
+
+        def as_map(obs):
+            return {inst: [cls, 'whole' if fn is None else set(fn)] for cls, inst, fn in obs['sources']}
         for f in range(1, nf + 1):
             case = {'stream': 'realseg', 'seed': ctx.seed, 'idx': idx, 'frame': f, 'multiframe_source': multiframe}
             res = _call(hd.sr.ReferencedSegmentationFrame.from_segmentation, seg, frame_number=f)
@@ -1009,10 +1110,27 @@ def _real_segmentations(ctx):
             obs = _observe_ref(res[1])
             if obs['frames'] != [f] or obs['segments'] != [1]:
                 ctx.fail(case, {'what': 'frame/segment named wrongly', 'obs': obs}, site='from_segmentation/frame/real')
-            want_inst, want_fn = table[f - 1]
-            if len(obs['sources']) != 1 or obs['sources'][0][1] != want_inst or obs['sources'][0][2] != want_fn:
+            if as_map(obs) != derived_from(table, [f]):
                 ctx.fail(case, {'what': 'source image/frames are not the ones this frame was derived from', 'got': obs['sources'],
-                                'want': [want_inst, want_fn]}, site='from_segmentation/frame/source-frames')
+                                'want': table[f - 1]['drv']}, site='from_segmentation/frame/source-frames')
+        # by segment and by a subset of its frames: ReferencedSegment names every source (frame) the named frames derive from
+        requests = [None] + [sorted(r.sample(range(1, nf + 1), r.randint(1, nf))) for _ in range(2)]
+        for fnums in requests:
+            case = {'stream': 'realseg', 'seed': ctx.seed, 'idx': idx, 'builder': 'segment', 'frames': fnums, 'multiframe_source': multiframe}
+            res = _call(hd.sr.ReferencedSegment.from_segmentation, seg, segment_number=1, frame_numbers=fnums)
+            ctx.case(path='from_segmentation/real-segment', nontrivial_key=('realseg-segment', multiframe, nf, tuple(fnums or ())))
+            if res[0] != 'ok':
+                ctx.fail(case, f'refused: {res[2]}', site='from_segmentation/segment/real')
+                continue
+            obs = _observe_ref(res[1])
+            named = fnums if fnums is not None else list(range(1, nf + 1))
+            want = derived_from(table, named)
+            got = as_map(obs)
+            if obs['frames'] != fnums or obs['segments'] != [1] or list(got) != list(want) or got != want:
+                ctx.fail(case, {'what': 'reference does not name the frames given / the source instances with the source frames the named '
+                                        'frames derive from', 'got': obs,
+                                'want': {k: [v[0], v[1] if v[1] == 'whole' else sorted(v[1])] for k, v in want.items()}},
+                         site='from_segmentation/segment/sources')
 
 
 def _run_one(ctx, case, reqs, pending):
